@@ -205,6 +205,43 @@ static void gen_case(Harness &H, Cmp &C, const std::string &d0, const std::vecto
           if (c.v != 0) H.fail("gen:missing-piece", "B_" + std::to_string(i) + " lacks a non-zero piece");
     }
   }
+  // forms ON the generated functions (orders 4..6): their high-order coefficients are naturally tiny next to the low-order
+  // ones, which hand-made operands are not. The generated floating-point splines are the (exactly representable)
+  // inputs here; the reference integrates exactly those.
+  if constexpr (p >= 4) {
+    using bspline::integration::BilinearForm;
+    using bspline::integration::LinearForm;
+    auto arr = [&](const auto &sp, size_t j) -> MArr {  // coefficients of sp on absolute interval j (zeros if not supported)
+      const auto &su = sp.getSupport();
+      MArr r(sp.getCoefficients().empty() ? 1 : sp.getCoefficients()[0].size());
+      if (j >= su.getStartIndex() && j + 1 < su.getEndIndex()) {
+        const auto &c = sp.getCoefficients()[j - su.getStartIndex()];
+        for (size_t k = 0; k < c.size(); k++) r[k] = MQ(exq<FT>(c[k]));
+      }
+      return r;
+    };
+    auto hh = [&](size_t j) -> mpq_class { return (g[j + 1] - g[j]) / 2; };
+    auto sum_iv = [&](auto f) { MQ r; for (size_t j = 0; j + 1 < g.size(); j++) r = r + f(j); return r; };
+    std::vector<Spline<FT, 0>> b0;
+    Outcome o0 = attempt([&] { b0 = bspline::generateBSplines<0>(to_s<FT>(t)); });
+    if (o0.threw()) H.fail("gen:threw", "order 0: " + o0.str());
+    for (size_t i = 0; i < bs.size(); i++) {
+      std::string ci = "B_" + std::to_string(i);
+      C("LF:gen", LinearForm{}(bs[i]), sum_iv([&](size_t j) { return r_linear(arr(bs[i], j), hh(j)); }), "LinearForm{}(" + ci + ")");
+      for (size_t jj : {i, i + 1, bs.size() - 1}) {
+        if (jj >= bs.size()) continue;
+        std::string cj = "B_" + std::to_string(jj);
+        C("BF:gen:I,I", BilinearForm{}(bs[i], bs[jj]), sum_iv([&](size_t j) { return r_bilinear(arr(bs[i], j), arr(bs[jj], j), hh(j)); }), "<" + ci + "|" + cj + ">");
+        C("BF:gen:Dx1,Dx1", BilinearForm{Dx<1>{}, Dx<1>{}}(bs[i], bs[jj]), sum_iv([&](size_t j) { return r_bilinear(r_dx(arr(bs[i], j), 1), r_dx(arr(bs[jj], j), 1), hh(j)); }), "<" + ci + "'|" + cj + "'>");
+      }
+      for (size_t k = 0; k < b0.size(); k++) {
+        if (b0[k].getCoefficients().empty() || !bs[i].checkOverlap(b0[k])) continue;
+        std::string ck = "B0_" + std::to_string(k);
+        C("BF:gen:p,0", BilinearForm{}(bs[i], b0[k]), sum_iv([&](size_t j) { return r_bilinear(arr(bs[i], j), arr(b0[k], j), hh(j)); }), "<" + ci + "|" + ck + ">");
+        C("BF:gen:0,p", BilinearForm{}(b0[k], bs[i]), sum_iv([&](size_t j) { return r_bilinear(arr(b0[k], j), arr(bs[i], j), hh(j)); }), "<" + ck + "|" + ci + ">");
+      }
+    }
+  }
   H.cls("gen:p" + std::to_string(p));
   H.nontriv();
   H.end();
